@@ -99,6 +99,9 @@ func init() {
 	for n := 1; n <= 9; n++ {
 		strPool = append(strPool, strings.Repeat("\xff", n), "ab"[:n%3]+strings.Repeat("\x80", n))
 	}
+	// strings and names that END in a backslash or a quote (the closing quote follows an escape)
+	strPool = append(strPool, "C:\\tmp\\", "\\", "x\\\\", "say \"hi\"", "\"")
+	namePool = append(namePool, "dir\\", "q\"", "\\")
 	namePool = append(namePool, "\xff\xff\xff", strings.Repeat("\xff", 5), strings.Repeat("\xfe", 6), "k"+strings.Repeat("\xc0", 8))
 }
 
